@@ -126,6 +126,9 @@ func main() {
 	for i := 0; i < nProg; i++ {
 		g := fqlast.NewGen(rng, 1+rng.Intn(depth))
 		p := g.Program()
+		if rng.Intn(2) == 0 {
+			m.Distribution["injected ')' '?' shapes"] += surface.InjectQ(p, rng, 1+rng.Intn(3))
+		}
 		surface.Sanitize(p)
 		if rng.Intn(2) == 0 {
 			surface.ReplaceStrings(p, rng)
